@@ -524,17 +524,31 @@ pub fn pos_of_case(case: &Value) -> Option<Pos> {
 
 /// Run `<release exe> leg <id> <tier>` and merge its result into this run.
 pub fn spawn_release_leg(run: &mut Run, name: &str) {
-    let exe = match std::env::var("OWLMC_REL") {
+    let tier = if run.tier == Tier::Quick { "quick" } else { "thorough" };
+    spawn_leg_exe(run, name, "OWLMC_REL", tier, &[], "release (no debug assertions, no overflow checks)");
+}
+
+/// the same leg in another binary named by the environment variable `var` (release build,
+/// AddressSanitizer build); `envs` are extra environment variables for the child
+pub fn spawn_leg_exe(run: &mut Run, name: &str, var: &str, tier: &str, envs: &[(&str, &str)], config: &str) {
+    let exe = match std::env::var(var) {
         Ok(e) if std::path::Path::new(&e).exists() => e,
         _ => {
-            run.exhaustive = false;
-            run.caps.push(format!("{}: release-configuration binary not available (OWLMC_REL unset); leg skipped", name));
+            run.notes.push(format!("{}: binary not available ({} unset or missing); leg skipped - the verdict rests on the other configurations", name, var));
+            if var == "OWLMC_REL" {
+                run.exhaustive = false;
+                run.caps.push(format!("{}: release-configuration binary not available", name));
+            }
             return;
         }
     };
     let t0 = Instant::now();
-    let tier = if run.tier == Tier::Quick { "quick" } else { "thorough" };
-    let out = std::process::Command::new(&exe).args(["leg", run.id, tier]).output();
+    let mut cmd = std::process::Command::new(&exe);
+    cmd.args(["leg", run.id, tier]);
+    for (k, v) in envs {
+        cmd.env(k, v);
+    }
+    let out = cmd.output();
     let out = match out {
         Ok(o) => o,
         Err(e) => {
@@ -550,8 +564,12 @@ pub fn spawn_release_leg(run: &mut Run, name: &str) {
         // same cases with assertions armed)
         run.total.violate(
             json!({"kind": "section", "universe": name, "status": format!("{:?}", out.status)}),
-            format!("release-configuration leg terminated abnormally: {:?}; stderr tail: {}", out.status,
-                String::from_utf8_lossy(&out.stderr).lines().rev().take(3).collect::<Vec<_>>().join(" | ")),
+            format!("leg [{}] terminated abnormally: {:?}; stderr: {}", config, out.status,
+                {
+                    let e = String::from_utf8_lossy(&out.stderr);
+                    let san: Vec<&str> = e.lines().filter(|l| l.contains("ERROR: AddressSanitizer") || l.contains("SUMMARY:") || l.contains("panicked")).take(4).collect();
+                    if san.is_empty() { e.lines().rev().take(3).collect::<Vec<_>>().join(" | ") } else { san.join(" | ") }
+                }),
         );
         return;
     };
@@ -567,9 +585,9 @@ pub fn spawn_release_leg(run: &mut Run, name: &str) {
             nv += 1;
             let mut case = x["case"].clone();
             if let Some(o) = case.as_object_mut() {
-                o.insert("config".into(), json!("release"));
+                o.insert("config".into(), json!(if var == "OWLMC_REL" { "release" } else { "other" }));
             }
-            run.total.violate(case, format!("[release build] {}", x["msg"].as_str().unwrap_or("")));
+            run.total.violate(case, format!("[{}] {}", config, x["msg"].as_str().unwrap_or("")));
         }
     }
     let total_nv = v["nviol"].as_u64().unwrap_or(nv);
@@ -578,7 +596,7 @@ pub fn spawn_release_leg(run: &mut Run, name: &str) {
     }
     run.universes.push(json!({
         "universe": name,
-        "config": "release (no debug assertions, no overflow checks)",
+        "config": config,
         "states": states, "transitions": transitions, "violations": total_nv,
         "detail": v["universes"],
         "wall_s": (t0.elapsed().as_secs_f64() * 1000.0).round() / 1000.0,
